@@ -329,6 +329,37 @@ def main(ck, tier, w, pid='C07'):
                 ck.violation('%s: adjacent inputs spending transactions whose txids share four leading / trailing bytes: %s' % (cb, '; '.join(probs[:3])),
                              {'txids': [btc.txid(t).hex() for t in txs0[1:]], 'observed': r.brief(), 'tags': []})
 
+    # ---- spenders of unusual shape (their inputs are spent like any other's): a transaction whose FIRST input is the null outpoint
+    # but which has further inputs (no coinbase), one whose outputs are all OP_RETURN, one without outputs; and consecutive ranges
+    # dumped into ONE folder (the dump of s..e starts from nothing, whatever earlier dumps lie there)
+    rq = random.Random('%d-shapes' % seed)
+    pa, pb_, pc = (btc.p2pkh(rq.randbytes(20)) for _ in range(3))
+    fund = {'ver': 1, 'ins': [{'txid': rq.randbytes(32), 'idx': 0, 'sig': b'', 'seq': 0}], 'outs': [{'val': 5000 + i, 'spk': [pa, pb_, pc][i % 3]} for i in range(6)], 'lock': 0}
+    ft = btc.txid(fund)
+    null_in = {'txid': b'\0' * 32, 'idx': 0xffffffff, 'sig': b'\x01\x01', 'seq': 0xffffffff}
+    sp1 = {'ver': 1, 'ins': [null_in, {'txid': ft, 'idx': 0, 'sig': b'', 'seq': 0}, {'txid': ft, 'idx': 1, 'sig': b'', 'seq': 0}], 'outs': [{'val': 1, 'spk': pc}], 'lock': 1}
+    sp2 = {'ver': 1, 'ins': [{'txid': ft, 'idx': 2, 'sig': b'', 'seq': 0}], 'outs': [{'val': 0, 'spk': b'\x6a' + btc.push(b'data only')}, {'val': 0, 'spk': b'\x6a\x01x'}], 'lock': 2}
+    sp3 = {'ver': 1, 'ins': [{'txid': ft, 'idx': 3, 'sig': b'', 'seq': 0}], 'outs': [], 'lock': 3}
+    qb, prev = [], b'\0' * 32
+    for h, txs in enumerate([[btc.coinbase(0, pa), fund], [btc.coinbase(1, pb_), sp1], [btc.coinbase(2, pc), sp2], [btc.coinbase(3, pa), sp3], [btc.coinbase(4, pb_)]]):
+        qb.append(datadir.mk_block(prev, txs, t=1300000000 + h, nonce=h))
+        prev = qb[-1]['hash']
+    qd = utxohist.write_chain(w, qb)
+    shared = w.mk('out')
+    for s_, e_ in ((None, None), (None, 1), (2, 3), (4, None), (2, None)):
+        lo, hi = s_ or 0, 4 if e_ is None else e_
+        qexp = ref.utxo_expected([(h, qb[h]) for h in range(lo, hi + 1)], 'bitcoin')
+        for cb, pre, want in (('unspentcsvdump', 'unspent', ref.unspent_rows(qexp)), ('balances', 'balances', ref.balances_rows(qexp))):
+            if (pid == 'C07') != (cb == 'unspentcsvdump'):
+                continue
+            r = run.run_parser(qd.path, cb, dump=shared, start=s_, end=e_)
+            rows = set(r.files.get('%s-%d-%d.csv' % (pre, lo, hi), b'').decode('utf-8', 'replace').splitlines()[1:])
+            ck.evals()
+            ck.distinct(('shapes', cb, s_, e_))
+            if r.rc != 0 or rows != want:
+                ck.violation('%s --start %s --end %s into a folder that holds the dumps of the earlier ranges %s: exit %d, unexpected rows %s, missing rows %s' % (
+                    cb, s_, e_, [f for f in r.listing if f.startswith(pre)], r.rc, sorted(rows - want)[:3], sorted(want - rows)[:3]), {'start': s_, 'end': e_, 'observed': r.brief(), 'tags': []})
+
     # ---- counts beyond 16 bits: a transaction with more than 65 536 outputs / inputs (indices are 32-bit on the wire) -----------
     r0 = random.Random('%d-wide' % seed)
     A = [btc.p2pkh(r0.randbytes(20)) for _ in range(3)]
